@@ -4,6 +4,7 @@ package props_race
 
 import (
 	"bytes"
+	"crypto/aes"
 	"encoding/binary"
 	"fmt"
 	"reflect"
@@ -20,10 +21,13 @@ import (
 
 	"github.com/Tnze/go-mc/chat"
 	"github.com/Tnze/go-mc/nbt"
+	mcnet "github.com/Tnze/go-mc/net"
+	"github.com/Tnze/go-mc/net/CFB8"
 	pk "github.com/Tnze/go-mc/net/packet"
 	"github.com/Tnze/go-mc/net/queue"
 	"github.com/Tnze/go-mc/server"
 
+	"verif/harness/iox"
 	"verif/harness/pbt"
 	"verif/harness/ref/fifo"
 )
@@ -362,11 +366,43 @@ func c20CheckPools(c C20Pools) *pbt.Violation {
 		{Name: "Mark", Type: reflect.TypeOf(int64(0)), Tag: `nbt:"casefoldedmarkername"`},
 	})
 	start := make(chan struct{})
+	// one packet that every goroutine sends over its OWN encrypted connection (a broadcast)
+	bsize := c.Sizes[0]
+	if bsize < 4096 && c.Seed%2 == 0 {
+		bsize = 4096 + int(c.Seed>>8%3000)
+	}
+	broadcast := pk.Packet{ID: 0x33, Data: bytes.Repeat([]byte{0xb0, 0x0c, 0xa5, 0x7e}, bsize/4+1)[:bsize]}
+	broadcastWant := append([]byte{}, broadcast.Data...)
 	for g := 0; g < c.Goroutines; g++ {
 		wg.Add(1)
 		go func(g int) {
 			defer wg.Done()
 			<-start
+			{
+				key := bytes.Repeat([]byte{byte(g + 1)}, 16)
+				blk, _ := aes.NewCipher(key)
+				a, b := iox.NewDuplex()
+				ca, cb := mcnet.WrapConn(a), mcnet.WrapConn(b)
+				ca.SetCipher(CFB8.NewCFB8Encrypt(blk, key), CFB8.NewCFB8Decrypt(blk, key))
+				cb.SetCipher(CFB8.NewCFB8Encrypt(blk, key), CFB8.NewCFB8Decrypt(blk, key))
+				ca.SetThreshold(c.Threshold)
+				cb.SetThreshold(c.Threshold)
+				for k := 0; k < 2; k++ {
+					if err := ca.WritePacket(broadcast); err != nil {
+						errs <- fmt.Sprintf("goroutine %d: WritePacket of the broadcast packet: %v", g, err)
+						return
+					}
+					var rp pk.Packet
+					if err := cb.ReadPacket(&rp); err != nil {
+						errs <- fmt.Sprintf("goroutine %d: reading the broadcast packet (%d bytes) from its own encrypted connection: %v", g, bsize, err)
+						return
+					}
+					if rp.ID != broadcast.ID || !bytes.Equal(rp.Data, broadcastWant) {
+						errs <- fmt.Sprintf("goroutine %d: the broadcast packet (%d bytes) arrived over its own encrypted connection as id %d with %d bytes that are not the packet's (first bytes % x)", g, bsize, rp.ID, len(rp.Data), head(rp.Data))
+						return
+					}
+				}
+			}
 			for it := 0; it < c.Iters; it++ {
 				size := c.Sizes[(g+it)%len(c.Sizes)]
 				payload := bytes.Repeat([]byte{byte(g), byte(it), byte(g ^ 0x5a)}, size/3+1)[:size]
@@ -462,6 +498,9 @@ func c20CheckPools(c C20Pools) *pbt.Violation {
 	case <-done:
 	case <-time.After(40 * time.Second):
 		return pbt.V("c20.pools.stalled", "concurrent use terminates", "goroutines still running after 40 s")
+	}
+	if !bytes.Equal(broadcast.Data, broadcastWant) {
+		return pbt.V("c20.pools.crosstalk", "bytes of one stream never appear in another's packets or values", "the packet sent over %d independent encrypted connections was modified (threshold %d, %d bytes)", c.Goroutines, c.Threshold, bsize)
 	}
 	select {
 	case e := <-errs:
